@@ -25,6 +25,7 @@ import (
 	"encoding/json"
 	"fmt"
 	"io"
+	"net"
 	"os"
 	"path/filepath"
 	"sort"
@@ -250,6 +251,7 @@ type cmdSpec struct {
 }
 
 type unitSpec struct {
+	WorkType  string      `json:"worktype"` // sh (bash -c script) | ok (/bin/true, no params) | ko (/bin/false) | nocmd (command does not exist)
 	Script    string      `json:"script"`
 	Output    string      `json:"-"`
 	Exit      int         `json:"exit"`
@@ -293,8 +295,13 @@ func genScript(r *Rng) (script, output string, exit, durMs int) {
 var opsMid = []string{"status", "status", "list", "cancel", "release", "force-release", "results", "status-unknown", "cancel-unknown", "release-unknown"}
 
 func genUnit(r *Rng) unitSpec {
-	u := unitSpec{}
+	u := unitSpec{WorkType: "sh"}
 	u.Script, u.Output, u.Exit, u.DurMs = genScript(r)
+	if r.Chance(15) { // work types without parameters; a command that cannot be started
+		u.WorkType = []string{"ok", "ko", "nocmd"}[r.Intn(3)]
+		u.Script, u.Output, u.DurMs = "", "", 0
+		u.Exit = map[string]int{"ok": 0, "ko": 1, "nocmd": 127}[u.WorkType]
+	}
 	if r.Chance(20) {
 		u.StdinHold = r.Range(50, 250)
 	}
@@ -337,14 +344,18 @@ type unitRun struct {
 func shQuote(s string) string { return "'" + strings.ReplaceAll(s, "'", `'"'"'`) + "'" }
 
 // submitHold is lib.Submit with a delay before stdin is closed; the unit ID is announced as soon as it is known.
-func submitHold(addr string, script string, hold time.Duration, idCh chan<- string) (string, map[string]interface{}, error) {
+func submitHold(addr string, wt, script string, hold time.Duration, idCh chan<- string) (string, map[string]interface{}, error) {
 	c, err := DialCtl(addr, tmo)
 	if err != nil {
 		close(idCh)
 		return "", nil, err
 	}
 	defer c.Close()
-	b, _ := json.Marshal(map[string]interface{}{"command": "work", "subcommand": "submit", "node": "localhost", "worktype": "sh", "params": shQuote(script)})
+	req := map[string]interface{}{"command": "work", "subcommand": "submit", "node": "localhost", "worktype": wt}
+	if wt == "sh" {
+		req["params"] = shQuote(script)
+	}
+	b, _ := json.Marshal(req)
 	l, err := c.Cmd(string(b), tmo)
 	if err != nil || strings.HasPrefix(l, "ERROR") {
 		close(idCh)
@@ -427,7 +438,7 @@ func runUnit(n *Node, spec unitSpec) *unitRun {
 	wg.Add(1)
 	go func() {
 		defer wg.Done()
-		_, ur.Submit, ur.SubErr = submitHold(n.Sock, spec.Script, time.Duration(spec.StdinHold)*time.Millisecond, idCh)
+		_, ur.Submit, ur.SubErr = submitHold(n.Sock, spec.WorkType, spec.Script, time.Duration(spec.StdinHold)*time.Millisecond, idCh)
 	}()
 	unit, ok := <-idCh
 	if !ok || unit == "" {
@@ -611,6 +622,18 @@ func judgeUnit(im *Impl, n *Node, ur *unitRun, lines []logLine) {
 		if b, err := os.ReadFile(filepath.Join(n.UnitDir(ur.Unit), "stdout")); err != nil || string(b) != ur.Spec.Output {
 			im.Violate(fmt.Sprintf("unit %s: stdout file differs from the script's output", ur.Unit), "c13-wrong-output", ctx)
 		}
+		// what the daemon REPORTS catches up with the stored final record (its monitor of the status
+		// file and the waiter goroutine keep the in-memory copy current)
+		var last map[string]interface{}
+		if !WaitFor(4*time.Second, func() bool {
+			st, err := WorkStatus(n.Sock, ur.Unit, tmo)
+			last = st
+			s, z, _, ok := statusOf(st)
+			return err == nil && ok && s == fin.State && z == fin.StdoutSize
+		}) {
+			im.Violate(fmt.Sprintf("unit %s ended as (%s,%d) but work status keeps reporting %v", ur.Unit, workceptor.WorkStateToString(fin.State), fin.StdoutSize, last), "c13-report-never-final", ctx)
+		}
+		im.Hist("unit:worktype=" + ur.Spec.WorkType)
 	}
 	switch {
 	case !releasedAt.IsZero():
@@ -628,7 +651,11 @@ func judgeUnit(im *Impl, n *Node, ur *unitRun, lines []logLine) {
 // ---------- node ----------
 
 func workTypes() string {
-	return "- work-command:\n    worktype: sh\n    command: bash\n    params: \"-c\"\n    allowruntimeparams: true\n"
+	// "sh" last: startNode waits for it, the others are registered by then
+	return "- work-command:\n    worktype: ok\n    command: /bin/true\n" +
+		"- work-command:\n    worktype: ko\n    command: /bin/false\n" +
+		"- work-command:\n    worktype: nocmd\n    command: /nonexistent/c13-command\n" +
+		"- work-command:\n    worktype: sh\n    command: bash\n    params: \"-c\"\n    allowruntimeparams: true\n"
 }
 
 func newNode(c *Ctx, dir, id string) *Node {
@@ -1059,6 +1086,16 @@ func part3(c *Ctx, im *Impl, cf *CaseFile, tmp string) {
 		case len(index) > 0 && r.Chance(30):
 			i := r.Intn(len(index))
 			id := index[i]
+			// the Go API other packages use: UnitStatus / CancelUnit on a unit that was never started
+			if st, err := w.UnitStatus(id); err != nil || st.State != workceptor.WorkStatePending || st.StdoutSize != 0 {
+				im.Violate(fmt.Sprintf("UnitStatus of a freshly allocated unit: %+v %v", st, err), "c13-wrong-final-state", id)
+			}
+			if err := w.CancelUnit(id); err != nil {
+				im.Violate("CancelUnit of a never started unit failed: "+err.Error(), "c13-cancel-reply", id)
+			}
+			if st, err := w.UnitStatus(id); err != nil || st.State != workceptor.WorkStatePending {
+				im.Violate(fmt.Sprintf("CancelUnit of a unit without runner changed its state: %+v %v", st, err), "c13-stage-regress", id)
+			}
 			if err := w.ReleaseUnit(id, r.Bool()); err != nil {
 				im.Violate("release of a never started unit failed: "+err.Error(), "c13-release-reply", id)
 			}
@@ -1069,6 +1106,15 @@ func part3(c *Ctx, im *Impl, cf *CaseFile, tmp string) {
 				if k == id {
 					im.Violate("unit still known after ReleaseUnit", "c13-known-after-release", id)
 				}
+			}
+			if _, err := w.UnitStatus(id); err == nil {
+				im.Violate("UnitStatus answers for a released unit", "c13-known-after-release", id)
+			}
+			if err := w.CancelUnit(id); err == nil {
+				im.Violate("CancelUnit succeeds on a released unit", "c13-known-after-release", id)
+			}
+			if err := w.ReleaseUnit(id, true); err == nil {
+				im.Violate("ReleaseUnit succeeds on a released unit", "c13-known-after-release", id)
 			}
 			index = append(index[:i], index[i+1:]...)
 			delete(disk, id)
@@ -1490,6 +1536,233 @@ func part5(c *Ctx, im *Impl, cf *CaseFile, tmp string) {
 	wg.Wait()
 }
 
+// ---------- part 6: the runner cannot be launched ----------
+//
+// commandUnit.Start launches os.Args[0] as the runner.  The daemon runs from a private copy of
+// the binary which is removed after start-up: Start fails, the submit path records Failed twice
+// ("Failed to start command runner", "Error starting worker") - the model's SStartErr branch.
+func part6(c *Ctx, im *Impl, cf *CaseFile, tmp string) {
+	dir := filepath.Join(tmp, "n5")
+	Must(os.MkdirAll(dir, 0o755))
+	binCopy := filepath.Join(dir, "receptor-copy")
+	b, err := os.ReadFile(c.Bin)
+	Must(err)
+	Must(os.WriteFile(binCopy, b, 0o755))
+	n := NewNode(binCopy, "n5", dir, workTypes())
+	n.Env = []string{"VERIF_STATUS_LOG=" + filepath.Join(dir, "status.log")}
+	startNode(n)
+	defer func() { n.Stop(); n.KillStrays() }()
+	daemonPids := map[int]bool{n.Cmd.Process.Pid: true}
+	Must(os.Remove(binCopy))
+	rounds := 3
+	if c.Thorough() {
+		rounds = 12
+	}
+	for i := 0; i < rounds; i++ {
+		unit, _, err := Submit(n.Sock, map[string]interface{}{"worktype": "sh", "params": shQuote("echo never")}, []byte("x"), tmo)
+		ctx := map[string]interface{}{"scenario": "work submit when the runner binary cannot be executed", "unit": unit, "submit_error": fmt.Sprint(err)}
+		if err == nil || unit == "" {
+			im.Violate(fmt.Sprintf("work submit answered success (unit %q) although the runner cannot be launched", unit), "c13-start-failure-not-reported", ctx)
+			continue
+		}
+		time.Sleep(100 * time.Millisecond)
+		lines := unitLog(n, unit)
+		bad := judgeLog(im, unit, lines, false, false, ctx)
+		cf.Add("CLog "+coqLog(lines, daemonPids), fmt.Sprintf("runner cannot be launched, unit %s | %s", unit, strings.Join(fmtLog(lines), " ; ")))
+		st, serr := WorkStatus(n.Sock, unit, tmo)
+		if s, _, _, ok := statusOf(st); serr != nil || !ok || s != 3 {
+			im.Violate(fmt.Sprintf("unit %s whose runner could not be launched is reported as %v %v", unit, st, serr), "c13-wrong-final-state", ctx)
+		}
+		if len(lines) == 0 || lines[len(lines)-1].New.State != 3 {
+			im.Violate(fmt.Sprintf("unit %s whose runner could not be launched is not recorded as Failed", unit), "c13-wrong-final-state", ctx)
+		}
+		sub := []string{"release", "cancel", "force-release"}[i%3]
+		reply, _ := OneShot(n.Sock, map[string]interface{}{"command": "work", "subcommand": sub, "unitid": unit}, tmo)
+		if sub != "cancel" {
+			if _, err := os.Stat(n.UnitDir(unit)); err == nil || !strings.Contains(reply, "released") {
+				im.Violate(fmt.Sprintf("unit %s: %s answered %q, directory exists: %v", unit, sub, reply, err == nil), "c13-release-leaves-directory", ctx)
+			}
+		} else if after := unitLog(n, unit); len(after) > 0 && after[len(after)-1].New.State != 3 {
+			im.Violate(fmt.Sprintf("unit %s: cancel of a unit that never had a runner changed its state to %d", unit, after[len(after)-1].New.State), "c13-stage-regress", ctx)
+		}
+		im.Count(fmt.Sprintf("start-failure %v", fmtLog(lines)), bad == 0)
+		im.Hist("start-failure:" + sub)
+		if i == 0 {
+			im.Sample(map[string]interface{}{"kind": "runner cannot be launched", "submit_error": fmt.Sprint(err), "status_writes": fmtLog(lines)})
+		}
+	}
+}
+
+// ---------- part 7: remote units ----------
+//
+// Node ra submits to node rb (TCP link).  The record of the remote unit on ra mirrors rb's; its
+// writers (remote_work.go) are not modelled, the property's relation is judged on every write:
+// chain + allowed transitions, monotone reports, release removes the unit on BOTH nodes, cancel
+// stops the process on rb, force-release works locally when rb is unreachable.
+
+func freePort() int {
+	l, err := net.Listen("tcp", "127.0.0.1:0")
+	Must(err)
+	defer l.Close()
+	return l.Addr().(*net.TCPAddr).Port
+}
+
+func coqLogA(lines []logLine) string {
+	es := make([]string, len(lines))
+	for i, l := range lines {
+		es[i] = fmt.Sprintf("(Daemon, KSame, %s, %s)", coqRec(l.Old), coqRec(l.New))
+	}
+	return CoqList(es)
+}
+
+func part7(c *Ctx, im *Impl, cf *CaseFile, tmp string) {
+	port := freePort()
+	rb := NewNode(c.Bin, "rb", filepath.Join(tmp, "rb"), fmt.Sprintf("- tcp-listener:\n    port: %d\n", port)+workTypes())
+	rb.Env = []string{"VERIF_STATUS_LOG=" + filepath.Join(rb.Dir, "status.log")}
+	ra := NewNode(c.Bin, "ra", filepath.Join(tmp, "ra"), fmt.Sprintf("- tcp-peer:\n    address: 127.0.0.1:%d\n", port)+workTypes())
+	ra.Env = []string{"VERIF_STATUS_LOG=" + filepath.Join(ra.Dir, "status.log")}
+	startNode(rb)
+	startNode(ra)
+	defer func() { ra.Stop(); rb.Stop(); ra.KillStrays(); rb.KillStrays() }()
+	rbPids := map[int]bool{rb.Cmd.Process.Pid: true}
+	// wait for the route
+	if !WaitFor(15*time.Second, func() bool {
+		l, err := OneShot(ra.Sock, map[string]interface{}{"command": "ping", "target": "rb"}, 3*time.Second)
+		return err == nil && strings.Contains(l, "Success")
+	}) {
+		im.Hist("remote:no-route")
+		return
+	}
+	unknown := func(s string) bool { return strings.Contains(s, "unknown work unit") }
+	remoteID := func(unit string) string {
+		b, _ := os.ReadFile(filepath.Join(ra.UnitDir(unit), "status"))
+		var s struct{ ExtraData struct{ RemoteUnitID string } }
+		_ = json.Unmarshal(b, &s)
+		return s.ExtraData.RemoteUnitID
+	}
+	type scen struct{ name string }
+	run := func(k int, name string) {
+		marker := fmt.Sprintf("c13rem-%d-%d", os.Getpid(), k)
+		dur := "1.2"
+		if name != "complete" {
+			dur = "30"
+		}
+		script := fmt.Sprintf("%secho start; exec -a %s sleep %s", "", marker, dur)
+		if name == "complete" {
+			script = trap + "echo start; sleep 1.2 & wait $!; echo end"
+		}
+		ctx := map[string]interface{}{"scenario": "remote unit (ra -> rb): " + name, "script": script}
+		defer func() {
+			for _, p := range procsWithMarker(marker) {
+				_ = syscall.Kill(p, syscall.SIGKILL)
+			}
+		}()
+		unit, _, err := Submit(ra.Sock, map[string]interface{}{"node": "rb", "worktype": "sh", "params": shQuote(script)}, []byte("x"), tmo)
+		if err != nil {
+			im.Violate("remote submit failed: "+err.Error(), "c13-submit-failed", ctx)
+			return
+		}
+		ctx["unit"] = unit
+		// watch what ra reports
+		var reports []snap
+		stopW := make(chan struct{})
+		var wgw sync.WaitGroup
+		wgw.Add(1)
+		go func() {
+			defer wgw.Done()
+			for {
+				select {
+				case <-stopW:
+					return
+				default:
+				}
+				if st, err := WorkStatus(ra.Sock, unit, 3*time.Second); err == nil {
+					if s, z, _, ok := statusOf(st); ok {
+						reports = append(reports, snap{State: s, StdoutSize: z})
+					}
+				}
+				time.Sleep(60 * time.Millisecond)
+			}
+		}()
+		reached := WaitFor(8*time.Second, func() bool { st, _, _ := diskStatus(ra, unit); return st >= 1 })
+		rid := ""
+		WaitFor(3*time.Second, func() bool { rid = remoteID(unit); return rid != "" })
+		ctx["remote_unit"] = rid
+		switch name {
+		case "complete":
+			WaitFor(10*time.Second, func() bool { st, _, _ := diskStatus(ra, unit); return st >= 2 })
+			time.Sleep(300 * time.Millisecond)
+			st, _, _ := diskStatus(ra, unit)
+			b, _ := os.ReadFile(filepath.Join(ra.UnitDir(unit), "stdout"))
+			if st != 2 || string(b) != "start\nend\n" {
+				im.Violate(fmt.Sprintf("remote unit %s ended on ra as state %d with stdout %q", unit, st, string(b)), "c13-wrong-final-state", ctx)
+			}
+		case "cancel":
+			if reached {
+				WaitFor(3*time.Second, func() bool { return len(procsWithMarker(marker)) > 0 })
+				reply, _ := OneShot(ra.Sock, map[string]interface{}{"command": "work", "subcommand": "cancel", "unitid": unit}, tmo)
+				ctx["cancel_reply"] = reply
+				if !WaitFor(6*time.Second, func() bool { return len(procsWithMarker(marker)) == 0 }) {
+					im.Violate(fmt.Sprintf("remote unit %s: 6 s after work cancel on ra (%q) its process on rb still runs", unit, reply), "c13-process-survives-cancel", ctx)
+				}
+				WaitFor(5*time.Second, func() bool { st, _, _ := diskStatus(ra, unit); return st >= 2 })
+			}
+		case "unreachable":
+			rb.Kill()
+			time.Sleep(200 * time.Millisecond)
+		}
+		close(stopW)
+		wgw.Wait()
+		// release
+		sub := "release"
+		if name == "unreachable" {
+			sub = "force-release"
+		}
+		reply, rerr := OneShot(ra.Sock, map[string]interface{}{"command": "work", "subcommand": sub, "unitid": unit}, 40*time.Second)
+		ctx["release_reply"] = reply
+		if rerr != nil || !strings.Contains(reply, "released") {
+			im.Violate(fmt.Sprintf("remote unit %s: %s on ra answered %q %v", unit, sub, reply, rerr), "c13-release-reply", ctx)
+		} else {
+			gone := WaitFor(5*time.Second, func() bool {
+				_, err := os.Stat(ra.UnitDir(unit))
+				l, _ := OneShot(ra.Sock, map[string]interface{}{"command": "work", "subcommand": "status", "unitid": unit}, tmo)
+				return err != nil && unknown(l)
+			})
+			if !gone {
+				im.Violate(fmt.Sprintf("remote unit %s is still known on ra or has its directory 5 s after %s answered %q", unit, sub, reply), "c13-known-after-release", ctx)
+			}
+			if name != "unreachable" && rid != "" {
+				if !WaitFor(5*time.Second, func() bool { _, err := os.Stat(rb.UnitDir(rid)); return err != nil }) {
+					im.Violate(fmt.Sprintf("remote unit %s: its unit %s on rb still has a directory 5 s after the release on ra", unit, rid), "c13-release-leaves-directory", ctx)
+				}
+			}
+		}
+		lines := unitLog(ra, unit)
+		bad := judgeLog(im, unit, lines, false, true, ctx)
+		cf.Add("CLogA "+coqLogA(lines), fmt.Sprintf("remote unit %s on ra (%s) | %s", unit, name, strings.Join(fmtLog(lines), " ; ")))
+		for i := 1; i < len(reports); i++ {
+			if cls := allowedGo(reports[i-1], reports[i]); cls != "" {
+				im.Violate(fmt.Sprintf("remote unit %s: ra reported (%s,%d) and later (%s,%d)", unit, workceptor.WorkStateToString(reports[i-1].State), reports[i-1].StdoutSize,
+					workceptor.WorkStateToString(reports[i].State), reports[i].StdoutSize), "c13-reported-"+cls, ctx)
+				break
+			}
+		}
+		if rid != "" && name != "unreachable" {
+			rl := unitLog(rb, rid)
+			judgeLog(im, rid, rl, false, true, ctx)
+			cf.Add("CLog "+coqLog(rl, rbPids), fmt.Sprintf("unit %s on rb, executed for ra's %s (%s) | %s", rid, unit, name, strings.Join(fmtLog(rl), " ; ")))
+		}
+		im.Count(fmt.Sprintf("remote %s %v", name, fmtLog(lines)), reached && len(lines) >= 4 && bad == 0)
+		im.Hist("remote:" + name)
+		if name == "complete" {
+			im.Sample(map[string]interface{}{"kind": "remote unit", "scenario": name, "status_writes_on_ra": fmtLog(lines), "reports": len(reports)})
+		}
+	}
+	run(0, "complete")
+	run(1, "cancel")
+	run(2, "unreachable") // kills rb: last
+}
+
 func mergeImpl(im, im2 *Impl) {
 	im.Evaluations += im2.Evaluations
 	for k := range im2.Distinct {
@@ -1524,7 +1797,13 @@ func runC13(c *Ctx) {
 	im4 := NewImpl("C13", c.Seed, c.Tier)
 	im5 := NewImpl("C13", c.Seed, c.Tier)
 	cf5 := &CaseFile{}
-	wg.Add(3)
+	im6 := NewImpl("C13", c.Seed, c.Tier)
+	cf6 := &CaseFile{}
+	im7 := NewImpl("C13", c.Seed, c.Tier)
+	cf7 := &CaseFile{}
+	wg.Add(5)
+	go func() { defer wg.Done(); part7(c, im7, cf7, tmp) }()
+	go func() { defer wg.Done(); part6(c, im6, cf6, tmp) }()
 	go func() { defer wg.Done(); part4(c, im4, tmp) }()
 	go func() { defer wg.Done(); part2(c, im2, cf2, tmp) }()
 	go func() { defer wg.Done(); part5(c, im5, cf5, tmp) }()
@@ -1538,6 +1817,14 @@ func runC13(c *Ctx) {
 	}
 	mergeImpl(im, im2)
 	mergeImpl(im, im5)
+	for i := range cf6.Cases {
+		cf.Add(cf6.Cases[i], cf6.Labels[i])
+	}
+	mergeImpl(im, im6)
+	for i := range cf7.Cases {
+		cf.Add(cf7.Cases[i], cf7.Labels[i])
+	}
+	mergeImpl(im, im7)
 	mergeImpl(im, im4)
 	Must(cf.Write())
 	Must(im.Write(c.Out))
